@@ -39,6 +39,9 @@ def step (line : String) : String :=
   | id :: _cls :: "prim" :: fn :: args => s!"{id} {evalPrim fn args}"
   | id :: _cls :: "str" :: args => s!"{id} {evalStr args}"
   | id :: _cls :: "dec" :: args => s!"{id} {evalDec args}"
+  | id :: _cls :: "decn" :: layer :: chain :: rest =>
+    -- a chain of earlier valid inputs "p1+p2+…": by the layers' reuse theorems only the receiver's LAST state could matter
+    s!"{id} {evalDec (layer :: ((chain.splitOn "+").getLast?.getD "-") :: rest)}"
   | id :: _cls :: "rt" :: args => s!"{id} {evalRt args}"
   | id :: _cls :: "rtv1" :: args => s!"{id} {evalRtV1 args}"
   | id :: _cls :: "rtrakp1" :: args => s!"{id} {evalRtRakp1 args}"
